@@ -33,6 +33,8 @@ class Prog:
 
     def desc(self):
         s = "%s src=%s(%s)" % ("lazy" if self.lazy else "eager", self.source["kind"], self.source.get("vt"))
+        if self.source.get("connect"):
+            s += " head-connects-to-%s-future" % self.source["connect"]
         sib = self.source.get("sib")
         if sib:
             s += " sibling=%s:%s%s/%s" % (sib["kind"], sib["attach"], "" if sib["etag"] is None else "@%d" % sib["etag"], sib["when"])
@@ -162,6 +164,15 @@ def source_fn(src):
     return "[cap0 = pg::Cap(0)]() -> %s { pg::Enter(0, {-1, 0}); %s }" % (rtype, body)
 
 
+def contract_body(src, vt):
+    """what a contract functor does with its promise: fulfil it, or connect it to another (ready / still pending) future"""
+    c = src.get("connect")
+    if not c:
+        return "pg::SetState(std::move(p), %d, %d);" % (src["st"], src["code"])
+    maker = "%s%s" % ("Pending" if c == "pending" else "Ready", "T" if vt == "T" else "V")
+    return "yaclib::Connect(pg::%s(%d, %d), std::move(p));" % (maker, src["st"], src["code"])
+
+
 def emit(p):
     L = []
     src = p.source
@@ -196,7 +207,7 @@ def emit(p):
         L.append("  auto h0 = yaclib::Run<pg::MyError>(%s);" % source_fn(src))
     elif k == "async_contract":
         L.append("  auto h0 = yaclib::AsyncContract<%s, pg::MyError>(%s, [cap0 = pg::Cap(0)](yaclib::Promise<%s, pg::MyError>&& p) { pg::Enter(0, {-1, 0}); "
-                 "pg::SetState(std::move(p), %d, %d); });" % (T, EXEC_NAME[src["etag"]], T, src["st"], src["code"]))
+                 "%s });" % (T, EXEC_NAME[src["etag"]], T, contract_body(src, vt)))
     elif k == "coro":
         L.append("  auto h0 = pg::CoroFuture%s(0, %d, %d);" % ("T" if vt == "T" else "V", src["st"], src["code"]))
     elif k == "shared":
@@ -212,7 +223,7 @@ def emit(p):
     elif k in ("lazy_contract", "lazy_contract_e"):
         ex = "%s, " % EXEC_NAME[src["etag"]] if k == "lazy_contract_e" else ""
         L.append("  auto h0 = yaclib::LazyContract<%s, pg::MyError>(%s[cap0 = pg::Cap(0)](yaclib::Promise<%s, pg::MyError>&& p) { pg::Enter(0, {-1, 0}); "
-                 "pg::SetState(std::move(p), %d, %d); });" % (T, ex, T, src["st"], src["code"]))
+                 "%s });" % (T, ex, T, contract_body(src, vt)))
     elif k == "make_task":
         if src["st"] == ST_VAL:
             e = "yaclib::MakeTask<pg::Tracked, pg::MyError>(pg::Tracked{%d})" % src["code"] if vt == "T" else "yaclib::MakeTask<void, pg::MyError>()"
@@ -391,6 +402,8 @@ def interpret(p, mode="base", k=-1):
             ex.log.append((0, etag, -1, 0))
             if kind in ("async_contract", "lazy_contract", "lazy_contract_e"):
                 state = (src["st"], src["code"] if (src["st"] != ST_VAL or vt == "T") else 0)
+                if src.get("connect"):
+                    ex.steps += 1  # the contract the functor connects its promise to
             else:
                 state = run_fret(src["fret"], vt)
         else:
@@ -666,6 +679,8 @@ def gen_source(rng, lazy, coro):
         src["vt"] = "T"
     if k in ("run_e", "schedule_e", "async_contract", "lazy_contract_e", "shared_on"):
         src["etag"] = rng.choice([1, 2, 3])
+    if k in ("async_contract", "lazy_contract", "lazy_contract_e") and rng.random() < 0.4:
+        src["connect"] = rng.choice(["pending", "ready"])
     if k in ("shared", "shared_on") and rng.random() < 0.5:
         att = rng.choice(["inline", "exec", "stopped"] + (["inherit", "inherit"] if k == "shared_on" else []))
         src["sib"] = {"kind": rng.choice(["sub", "then"]), "attach": att, "when": rng.choice(["before", "after"]),
@@ -704,6 +719,8 @@ def gen_prog(rng, pid, lazy, coro, length):
     immediate_only = lazy and p.start == "get"
     if immediate_only and p.source["kind"] in ("schedule_e", "lazy_contract_e"):
         p.source["etag"] = 3
+    if immediate_only and p.source.get("connect") == "pending":
+        p.source["connect"] = "ready"  # Get() blocks: nobody could fulfil the pending future
     cur_vt = p.source["vt"]
     from_shared = p.source["kind"] in ("shared", "shared_on")
     slots = [{"pending": rng.randrange(2), "st": rng.choice([ST_VAL, ST_VAL, ST_EXC, ST_ERR]), "code": 9100 + rng.randrange(1, 99)},
@@ -758,18 +775,23 @@ def generate(seed, n_random, coro, max_len=4, exhaustive_l1=True):
                                    "task_make", "task_sched_e", "task_sched", "task_lazycontract"] + (["task_coro"] if coro else []):
                             for in_state in (ST_VAL, ST_ERR, ST_EXC):
                                 p = Prog(pid)
+                                # variation selector: a hash of the id, so that a stride sample of the list does not
+                                # alias with the modulo choices below
+                                q = ((pid * 2654435761) & 0xFFFFFFFF) >> 9
                                 p.lazy = lazy
                                 p.coro = coro
                                 src = {"kind": sk, "vt": "T", "st": in_state, "code": 7}
                                 if sk == "shared":
-                                    src["pending"] = (pid % 2 == 0)
+                                    src["pending"] = (q % 2 == 0)
                                 if sk in ("shared", "shared_on"):
                                     if sig in ("R", "Vr"):
                                         continue
-                                    if pid % 3 != 2 and (attach != "inherit" or sk == "shared_on"):
+                                    if q % 3 != 2 and (attach != "inherit" or sk == "shared_on"):
                                         # another consumer on the same shared source, attached the same way as the step
-                                        src["sib"] = {"kind": "then" if pid % 2 else "sub", "attach": attach, "when": "before" if (pid // 2) % 2 else "after",
-                                                      "etag": {"exec": 1 + (pid // 3) % 2, "stopped": 4}.get(attach)}
+                                        src["sib"] = {"kind": "then" if q % 2 else "sub", "attach": attach, "when": "before" if (q // 2) % 2 else "after",
+                                                      "etag": {"exec": 1 + (q // 3) % 2, "stopped": 4}.get(attach)}
+                                if sk == "lazy_contract" and q % 3 != 0:
+                                    src["connect"] = "pending" if q % 3 == 1 else "ready"
                                 if sk in ("run_e", "schedule_e", "shared_on"):
                                     src["etag"] = 1
                                 if sk in ("run_e", "run", "schedule_e", "schedule", "shared_on"):
@@ -782,18 +804,18 @@ def generate(seed, n_random, coro, max_len=4, exhaustive_l1=True):
                                     continue
                                 ret = {"kind": rk, "code": 1042}
                                 if rk in ("res", "fut_ready", "fut_pending", "shared_ready", "shared_pending", "shared_slot", "task_lazycontract", "task_coro"):
-                                    ret["st"] = [ST_VAL, ST_ERR, ST_EXC][pid % 3]
+                                    ret["st"] = [ST_VAL, ST_ERR, ST_EXC][q % 3]
                                 if rk == "shared_slot":
                                     ret["slot"] = 0
-                                    ret["pending"] = (pid // 3) % 2
+                                    ret["pending"] = (q // 3) % 2
                                 if rk in ("fut_run", "task_sched_e"):
-                                    ret["etag"] = [2, 3, 4][(pid // 5) % 3]
+                                    ret["etag"] = [2, 3, 4][(q // 5) % 3]
                                 if rk in ("fut_run", "task_sched_e", "task_sched", "task_lazycontract", "task_coro"):
                                     ret["iid"] = 110
-                                if rk.startswith("task_") and pid % 2 == 1:
+                                if rk.startswith("task_") and q % 2 == 1:
                                     ret["hid"] = 111
                                     ret["hcode"] = 1555
-                                etag = {"exec": 1 + pid % 2, "stopped": 4}.get(attach)
+                                etag = {"exec": 1 + q % 2, "stopped": 4}.get(attach)
                                 p.steps = [Step(1, attach, etag, sig, ret, "T", out_vt)]
                                 p.start = "tofuture"
                                 p.tail = "get"
@@ -808,11 +830,16 @@ def generate(seed, n_random, coro, max_len=4, exhaustive_l1=True):
                         for rk in ("val", "fut_ready"):
                             for in_state in (ST_VAL, ST_ERR):
                                 p = Prog(pid)
+                                # variation selector: a hash of the id, so that a stride sample of the list does not
+                                # alias with the modulo choices below
+                                q = ((pid * 2654435761) & 0xFFFFFFFF) >> 9
                                 p.lazy = True
                                 p.coro = coro
                                 src = {"kind": sk, "vt": "T", "st": in_state, "code": 7}
                                 if sk == "schedule_e":
                                     src["etag"] = 1
+                                if sk == "lazy_contract" and q % 3 != 0:
+                                    src["connect"] = "pending" if q % 3 == 1 else "ready"
                                 if sk in ("schedule_e", "schedule"):
                                     src["fret"] = {"kind": "res", "st": in_state, "code": 7}
                                 p.source = src
@@ -822,8 +849,8 @@ def generate(seed, n_random, coro, max_len=4, exhaustive_l1=True):
                                     continue
                                 ret = {"kind": rk, "code": 1042}
                                 if rk == "fut_ready":
-                                    ret["st"] = [ST_VAL, ST_ERR, ST_EXC][pid % 3]
-                                etag = {"exec": 1 + pid % 2, "stopped": 4}.get(attach)
+                                    ret["st"] = [ST_VAL, ST_ERR, ST_EXC][q % 3]
+                                etag = {"exec": 1 + q % 2, "stopped": 4}.get(attach)
                                 p.steps = [Step(1, attach, etag, sig, ret, "T", "T")]
                                 progs.append(p)
                                 pid += 1
